@@ -1953,7 +1953,9 @@ func pchPom(c pchCase, level int) string {
 			continue
 		}
 		if d.PropLevel == level {
-			props = append(props, "    <"+d.Prop+">"+d.Ver+"</"+d.Prop+">")
+			if line := "    <" + d.Prop + ">" + d.Ver + "</" + d.Prop + ">"; !slices.Contains(props, line) { // a property shared by entries is defined once
+				props = append(props, line)
+			}
 		} else if d.Decoy && d.Level == level && d.PropLevel < level {
 			props = append(props, "    <"+d.Prop+">0.0.1</"+d.Prop+">")
 		}
@@ -2070,6 +2072,7 @@ func runPch(c pchCase) (line string, reply string) {
 		var us []string
 		touched := map[int]bool{}
 		var sentTo, added []string
+		propTo := map[string]string{}
 		for i, di := range c.Ups {
 			d := c.Decls[di]
 			if d.Profile != "" && d.Level > 0 {
@@ -2098,8 +2101,13 @@ func runPch(c pchCase) (line string, reply string) {
 					pus = append(pus, result.PackageUpdate{Name: r.Name, VersionFrom: r.Version, VersionTo: c.To[i], Type: r.Type.Clone()})
 					us = append(us, strings.Join([]string{hs(r.Name), hs(""), hs(""), hs(o), hs(r.Version), hs(c.To[i])}, ":"))
 					sentTo = append(sentTo, c.To[i])
-					if d.Prop != "" {
+					if first, ok := propTo[d.Prop]; d.Prop != "" && ok && first != c.To[i] {
+						// the property already goes to another value (an entry that shares it): this entry gets its version written
+						// out, in the pom that DECLARES it
+						touched[d.Level] = true
+					} else if d.Prop != "" {
 						touched[d.PropLevel] = true // the file that holds the definition in force
+						propTo[d.Prop] = c.To[i]
 					} else {
 						touched[d.Level] = true
 					}
@@ -2203,7 +2211,28 @@ func genPch(r *rand.Rand) pchCase {
 			c.To = append(c.To, pomTo[r.Intn(len(pomTo))])
 		}
 	}
+	pchSharedParentProperty(r, &c)
 	return c
+}
+
+// pchSharedParentProperty: every fourth layout, two entries of the CHILD take their version from one property that a local parent
+// defines, and both are updated — two times out of three to different versions.  The first update moves the property (in the
+// parent's file); the second cannot, so the entry's version is written out — in the child, the pom that declares the entry (a
+// refactoring filed it with the patches of the pom that defines the property, where no such entry exists).
+func pchSharedParentProperty(r *rand.Rand, c *pchCase) {
+	if r.Intn(4) != 0 {
+		return
+	}
+	lvl, ver := 1+r.Intn(c.Depth), pomVers[r.Intn(6)]
+	to := []string{pomTo[r.Intn(len(pomTo))], pomTo[r.Intn(len(pomTo))]}
+	if r.Intn(3) == 0 {
+		to[1] = to[0]
+	}
+	for i, a := range []string{"s1", "s2"} {
+		c.Decls = append(c.Decls, pchDecl{Level: 0, Mgmt: r.Intn(3) == 0, A: a, Ver: ver, Prop: "v.shared", PropLevel: lvl})
+		c.Ups = append(c.Ups, len(c.Decls)-1)
+		c.To = append(c.To, to[i])
+	}
 }
 
 // pchCrossLevelProperty (fix 95fbdd2e): two times out of three the definition of the property that takes effect is NOT in the pom
